@@ -266,6 +266,7 @@ def replay(prop):
 def main(prop, tier):
     camp = Campaign(prop, tier)
     n = N_QUICK if tier == "quick" else N_THOROUGH
+    n = int(__import__("os").environ.get("VERIF_CASES", n))     # experiments only
     base = camp.seed * 1000003 + 3000
     camp.rule = ("sat-biased scripts in the 10 model-producing logics (UF incl. Bool/numeric arguments, strict "
                  "inequalities, div/mod, ite, :incremental false, substitutions on/off, all engines, histories); after each "
